@@ -34,6 +34,11 @@ def decorations():
     out.append(("nested_fold_outputs", {}, [prop_node("id")], [edge_node("next", "fold", props=[val_out("nn")])], []))
     out.append(("nested_fold_count", {}, [prop_node("id")], [edge_node("next", "fold", props=[prop_node("id")], count={"filters": [], "outputs": [{"name": "nc"}], "tags": []})], []))
     out.append(("nested_plain_then_fold_outputs", {}, [prop_node("id")], [edge_node("peer", "optional", props=[prop_node("id")], edges=[edge_node("next", "fold", props=[val_out("pn")])])], []))
+    # the fold's own body removes elements (a filter, a coercion, a mandatory edge): the count is of the surviving elements, not of the raw neighbours
+    out.append(("inner_filter", {}, [prop_node("val", filters=[FVar("<", "m")])], [], [], {"m": I(3)}))
+    out.append(("inner_filter_count_output", {"outputs": [{"name": "c"}]}, [prop_node("val", outputs=["inner"], filters=[FVar(">=", "m")])], [], [], {"m": I(2)}))
+    out.append(("inner_coercion", {"outputs": [{"name": "c"}]}, [prop_node("id")], [], [], {}, "A"))
+    out.append(("inner_mandatory_edge", {}, [prop_node("id")], [edge_node("peer", "plain", props=[prop_node("id")])], [], {}))
     tag = {"tags": [{"name": "c"}]}
     out.append(("tag_parent_filter", tag, [prop_node("id")], [], [edge_node("peer", "optional", alias="p", props=[prop_node("val", outputs=["pv"], filters=[FTag("<=", "c")])])]))
     out.append(("tag_sibling_fold", tag, [prop_node("id")], [], [edge_node("next", "fold", alias="s", props=[prop_node("val", outputs=["sv"], filters=[FTag("<", "c")])])]))
@@ -65,16 +70,17 @@ def fold_instances(tier, seed, start_id=1):
         for b in range(a, len(OPS)):
             for x, y in ((1, 2), (2, 2), (2, 3), (0, 1), (3, 1)):
                 pairsets.append([(OPS[a], argfor(OPS[a], x)), (OPS[b], argfor(OPS[b], y))])
-    for name, cextra, body_props, body_edges, siblings in decorations():
+    for name, cextra, body_props, body_edges, siblings, *rest in decorations():
+        xargs = rest[0] if rest else {}; coerce = rest[1] if len(rest) > 1 else ""
         for fs in filtersets + (pairsets if name in ("nothing", "count_output", "tag_sibling_fold") else []):
             for under in ("root", "optional"):
                 if under == "optional" and tier == "quick" and rng.random() < 0.6: continue
-                args = {}; filters = []
+                args = dict(xargs); filters = []
                 for k, (op, a) in enumerate(fs):
                     args[f"n{k}"] = a; filters.append(FVar(op, f"n{k}"))
                 count = {"filters": filters, "outputs": list(cextra.get("outputs", [])), "tags": list(cextra.get("tags", []))}
                 import copy
-                fold = edge_node("next", "fold", props=copy.deepcopy(body_props), edges=copy.deepcopy(body_edges), count=count)
+                fold = edge_node("next", "fold", coerce=coerce, props=copy.deepcopy(body_props), edges=copy.deepcopy(body_edges), count=count)
                 scope_edges = [fold] + copy.deepcopy(siblings)
                 if under == "root":
                     q = edge_node("Nodes", props=[prop_node("id", outputs=["rid"])], edges=scope_edges)
